@@ -55,6 +55,22 @@ def cases(rng, tier):
             for bad in common.edge_variants(good):
                 for op in ("b58d", "b58cd", "b58addr"):
                     yield "%s %s" % (op, sx(bad)), "edge-character:" + op
+    # strings over the alphabet whose HEAD reads like the prefix of another format (segwit addresses, extended keys,
+    # WIF and address first characters, URI schemes, hex markers): they are Base58 strings like any other
+    heads = ["bc1q", "bc1p", "tb1q", "tb1p", "bc1", "tb1", "bcrt1q", "xpub", "xprv", "tpub", "tprv", "zpub", "ypub",
+             "Zpub", "vpub", "upub", "K", "L", "5", "c", "9", "m", "n", "2", "3", "1", "11", "bitcoin", "lnbc", "m/",
+             "Qm", "z", "zz", "x", "bc", "tb", "pk", "sk", "addr", "wif", "hex", "b58", "A", "a"]
+    heads = [h_ for h_ in heads if all(c_ in B58 for c_ in h_)]
+    for h_ in (heads if tier == "thorough" else heads[:6] + rng.sample(heads[6:], 8)):
+        for ln in (0, 3, 20, 38):
+            s_ = h_ + "".join(rng.choice(B58) for _ in range(ln))
+            yield "b58d " + sx(s_), "format-lookalike-head"
+            # ... and the same head on a string with a VALID checksum: decode, correct the last four bytes, re-encode
+            raw = b58dec(s_)
+            if len(raw) > 5:
+                good = b58enc(raw[:-4] + dsha(raw[:-4])[:4])
+                if good.startswith(h_):
+                    yield "b58cd " + sx(good), "format-lookalike-head-check"
     n_rand = 1500 if tier == "quick" else 60000
     # corpus / boundaries
     fixed = [b"\x00", b"\x01", b"\x39", b"\x3a", b"\xff", b"\x00\x00", b"\x00\x01", b"\x01\x00",
@@ -214,3 +230,14 @@ def literal_ops(lit):
     v = lit.to_bytes((lit.bit_length() + 7) // 8 or 1, "big")
     yield "b58e " + hx(v)
     yield "b58d " + sx(b58enc(v) or "1")
+
+
+def literal_str_ops(txt):
+    """a string literal of the source that is itself a string over the Base58 alphabet, as head of decoder input"""
+    if txt and all(c_ in B58 for c_ in txt):
+        for tail in ("", "2NEpo7TZRRrLZSi2U", "1" * 7 + "z"):
+            yield "b58d " + sx(txt + tail)
+            raw = b58dec(txt + tail)
+            if len(raw) > 5:
+                good = b58enc(raw[:-4] + dsha(raw[:-4])[:4])
+                yield "b58cd " + sx(good)
